@@ -79,7 +79,9 @@ type pwCase struct {
 // as byte strings, and chosen to be close to each other.
 func pwFamily(k int, seed int64) [4]string {
 	long := strings.Repeat("x", 71)
-	switch k % 7 {
+	switch k % 8 {
+	case 7: // bcrypt keys the cipher with password+NUL repeated cyclically: p and p+NUL+p are the same key
+		return [4]string{"", "abcdefgh", "abcdefgh\x00abcdefgh", "abcdefgh\x00"}
 	case 0: // shared prefix / one is a prefix of the other
 		return [4]string{"", "Password-1-aaaa", "Password-1-aaab", "Password-1-aaa"}
 	case 1: // bcrypt reads at most 72 bytes: differ only in byte 72, and a 71-byte prefix
@@ -95,6 +97,21 @@ func pwFamily(k int, seed int64) [4]string {
 	default: // one bit apart in the first / last byte
 		return [4]string{"", "abcdefgh-0123456", "abcdefgh-0123457", "bbcdefgh-0123456"}
 	}
+}
+
+// bcryptKeyAlias: known-finding predicate. bcrypt's key schedule consumes password+NUL cyclically (72 bytes), so two different
+// passwords whose NUL-terminated forms generate the same cyclic byte stream are indistinguishable to it.
+func bcryptKeyAlias(a, b string) bool {
+	if a == b || a == "" || b == "" {
+		return false
+	}
+	ka, kb := a+"\x00", b+"\x00"
+	for i := 0; i < 72; i++ { // Blowfish's P-array is 18 words = 72 key bytes
+		if ka[i%len(ka)] != kb[i%len(kb)] {
+			return false
+		}
+	}
+	return true
 }
 
 func runPw(raw json.RawMessage, env *rt.Env) rt.Result {
@@ -118,6 +135,13 @@ func runPw(raw json.RawMessage, env *rt.Env) rt.Result {
 	pws := pwFamily(c.Family, env.Seed)
 	evals := 0
 	changes := 0
+	var cur [3]string // the concrete password last stored per user (for the known-finding predicate only)
+	alias := func(u int, cand string) []string {
+		if bcryptKeyAlias(cur[u], cand) {
+			return []string{"bcrypt_nul_cycle_alias"}
+		}
+		return nil
+	}
 	for i, s := range c.Steps {
 		switch s.A {
 		case "Set":
@@ -127,12 +151,13 @@ func runPw(raw json.RawMessage, env *rt.Env) rt.Result {
 			}
 			if err == nil {
 				changes++
+				cur[s.U] = pws[s.P]
 			}
 		case "Compare":
 			err := ts.ComparePassword(ctx, uid[s.U], pws[s.P])
 			evals++
 			if err == nil && !s.Exp.Ok {
-				return rt.Fail(i, fmt.Sprintf("ComparePassword(user%d, %q) succeeded although it is not the password most recently set (family %d)", s.U, pws[s.P], c.Family), "ok", "refused")
+				return rt.Fail(i, fmt.Sprintf("ComparePassword(user%d, %q) succeeded although it is not the password most recently set (%q) (family %d)", s.U, pws[s.P], cur[s.U], c.Family), "ok", "refused", alias(s.U, pws[s.P])...)
 			}
 			if err != nil && s.Exp.Ok {
 				return rt.Fail(i, fmt.Sprintf("ComparePassword(user%d, %q) failed (%v) for the password most recently set (family %d)", s.U, pws[s.P], err, c.Family), err.Error(), "ok")
@@ -141,18 +166,20 @@ func runPw(raw json.RawMessage, env *rt.Env) rt.Result {
 			err := ts.CompareAndSetPassword(ctx, uid[s.U], pws[s.Old], pws[s.P])
 			evals++
 			if err == nil && !s.Exp.Ok {
-				return rt.Fail(i, fmt.Sprintf("CompareAndSetPassword(user%d, old=%q, new=%q) went through although old is not the current password (family %d)", s.U, pws[s.Old], pws[s.P], c.Family), "ok", "refused")
+				return rt.Fail(i, fmt.Sprintf("CompareAndSetPassword(user%d, old=%q, new=%q) went through although old is not the current password (%q) (family %d)", s.U, pws[s.Old], pws[s.P], cur[s.U], c.Family), "ok", "refused", alias(s.U, pws[s.Old])...)
 			}
 			if err != nil && s.Exp.Ok {
 				return rt.Fail(i, fmt.Sprintf("CompareAndSetPassword(user%d, old=%q) refused the current password: %v (family %d)", s.U, pws[s.Old], err, c.Family), err.Error(), "ok")
 			}
 			if err == nil {
 				changes++
+				cur[s.U] = pws[s.P]
 			}
 		case "DeleteUser":
 			if err := ts.DeleteUser(ctx, uid[s.U]); err != nil {
 				return rt.Infra("DeleteUser: " + err.Error())
 			}
+			cur[s.U] = ""
 		default:
 			return rt.Infra("unknown action " + s.A)
 		}
@@ -618,8 +645,8 @@ func runAuthnOnce(c *anCase, tick time.Duration, seed int64) (res rt.Result, mis
 				default:
 					got = fmt.Sprintf("http %d", fl.rec.Code)
 				}
-			case <-time.After(20 * time.Second):
-				return finish(rt.Result{OK: false, Kind: "hang", Step: i, Msg: "AuthenticationHandler did not answer"}), nil
+			case <-time.After(60 * time.Second):
+				return finish(rt.Infra("AuthenticationHandler did not answer within 60 s")), nil
 			}
 			evals++
 			if c.Timed && w.late() {
